@@ -89,6 +89,7 @@ def impl(case):
         outer.b = B()
         outer.i = inner(p=outer.b)
         pkg = h.to_proto(outer)
+        anon = anon_parent(case, B, inner)
     except Exception as ex:  # noqa
         return {"reject": f"{type(ex).__name__}: {str(ex)[-200:]}"}
     pi = observe.find_module(pkg, "Inner")
@@ -103,7 +104,55 @@ def impl(case):
     conns = []
     for c in inst.connections:
         conns.append([c.portname, c.target.sig if c.target.WhichOneof("stype") == "sig" else "<non-signal>"])
-    return {"ok": {"ports": ports, "internal": internal, "conns": conns}}
+    return {"ok": {"ports": ports, "internal": internal, "conns": conns, "anon": anon}}
+
+
+def anon_parent(case, B, inner):
+    """A second parent connecting the bundle port from a re-ordered AnonymousBundle whose members are
+    fresh signals, nested anonymous bundles, or instances of the sub-bundle types. Returns the observed
+    and the expected (by member path) connections of its instance."""
+    import random
+
+    rng = random.Random(case.get("anon_seed", 0))
+    outer = h.Module(name="Outer2")
+    expected = {}
+
+    def build(tree, bdef, path):
+        members = []
+        for s in tree["sigs"]:
+            sig = h.Signal(width=s["w"])
+            outer.add(sig, name="s_" + "_".join(path + [s["n"]]))
+            expected["p_" + "_".join(path + [s["n"]])] = sig.name
+            members.append((s["n"], sig))
+        for sub in tree["subs"]:
+            subdef = bdef.bundles[sub["n"]].of
+            if rng.random() < 0.5:
+                members.append((sub["n"], build(sub["of"], subdef, path + [sub["n"]])))
+            else:
+                bi = subdef()
+                outer.add(bi, name="bb_" + "_".join(path + [sub["n"]]))
+                for leafpath in leaf_paths(sub["of"]):
+                    expected["p_" + "_".join(path + [sub["n"]] + leafpath)] = bi.name + "_" + "_".join(leafpath)
+                members.append((sub["n"], bi))
+        rng.shuffle(members)
+        return h.AnonymousBundle(**dict(members))
+
+    outer.i = inner(p=build(case["tree"], B, []))
+    try:
+        pkg = h.to_proto(outer)
+    except Exception as ex:  # noqa
+        return {"reject": f"{type(ex).__name__}: {str(ex)[-160:]}"}
+    po = observe.find_module(pkg, "Outer2")
+    inst = [i for i in po.instances if i.name == "i"][0]
+    got = {c.portname: (c.target.sig if c.target.WhichOneof("stype") == "sig" else "<non-signal>") for c in inst.connections}
+    return {"got": got, "expected": expected}
+
+
+def leaf_paths(tree):
+    out = [[s["n"]] for s in tree["sigs"]]
+    for sub in tree["subs"]:
+        out += [[sub["n"]] + p for p in leaf_paths(sub["of"])]
+    return out
 
 
 def line(case):
@@ -125,6 +174,12 @@ def judge(case, im, mo):
     want_int = sorted(({"name": p["name"], "width": p["width"]} for p in mo["internal"]), key=key)
     if sorted(got["internal"], key=key) != want_int:
         yield ("pred", f"leaves of the non-port instance are not internal signals: {got['internal']} vs {want_int}")
+    an = got["anon"]
+    if "reject" in an:
+        yield ("corr", f"re-ordered anonymous-bundle connection rejected: {an['reject']}")
+    elif an["got"] != an["expected"]:
+        bad = {k: (v, an["expected"].get(k)) for k, v in an["got"].items() if an["expected"].get(k) != v}
+        yield ("pred", f"anonymous-bundle connection does not pair members by path: {bad}")
     if sorted(got["conns"]) != sorted(mo["conns"] or []):
         yield ("pred", f"bundle connection does not pair members by path: {sorted(got['conns'])} vs {mo['conns']}")
 
@@ -169,7 +224,7 @@ def run(ctx):
     ctx.rep.extra["exhaustive_chain_family"] = len(cases)
     n = 250 if ctx.quick else 5000
     for k in range(n):
-        cases.append({"tree": rand_tree(rng, rng.choice([0, 1, 1, 2, 2, 3]), rng.choice([1, 2, 3])),
+        cases.append({"anon_seed": k, "tree": rand_tree(rng, rng.choice([0, 1, 1, 2, 2, 3]), rng.choice([1, 2, 3])),
                       "flip": rng.random() < 0.5, "via": rng.choice(["ctor", "fn"]), "role": rng.choice([None, "HOST", "DEVICE"])})
     cases = [c for c in cases if leafcount(c["tree"]) > 0]
     S.run(ctx, cases)
